@@ -43,6 +43,9 @@ func NewRPCError(oErr OrdaError) error {
 		c = codes.Internal
 	case ServerBadRequest:
 		c = codes.InvalidArgument
+	default:
+		// any other refusal is still an error: status.Error(codes.OK, ...) would return nil
+		c = codes.Internal
 	}
 	return status.Error(c, oErr.Error())
 }
